@@ -560,7 +560,8 @@ class Exec:
             return self.models[a.cls].op_order(self, a, op, b)
         if _plain(a) and _plain(b):
             return {ast.Lt: lambda: a < b, ast.LtE: lambda: a <= b, ast.Gt: lambda: a > b, ast.GtE: lambda: a >= b}[type(op)]()
-        if isinstance(a, Rat) or isinstance(b, Rat):
+        realish = lambda v: isinstance(v, float) or (isinstance(v, z3.ExprRef) and z3.is_real(v))
+        if (isinstance(a, Rat) or isinstance(b, Rat)) and not (realish(a) or realish(b)):
             (an, ad), (bn, bd) = self.rat(a), self.rat(b)
             l, r = an * bd, bn * ad
         else:
